@@ -204,7 +204,11 @@ func (w *World) Begin(dt time.Duration) bool {
 
 func (w *World) End() bool {
 	r := w.EndBlock()
-	w.emit("EndBlock", Rec{}, r)
+	args := Rec{}
+	if tb, err := w.App.StakingKeeper.TotalBondedTokens(w.Ctx); err == nil {
+		args["bonded"] = NumInt(tb)
+	}
+	w.emit("EndBlock", args, r)
 	if !r.Ok {
 		w.Halted = true
 	}
